@@ -423,6 +423,13 @@ func c16ReusedPacker(env *fw.Env, idx int) fw.Result {
 		t, rules := c16Tree(r)
 		t.Nodes = append(t.Nodes, gen.NodeSpec{Path: fmt.Sprintf("to-shared-%d", i), Kind: "link", Target: "../shared/x.txt"})
 		t.Nodes = append(t.Nodes, gen.NodeSpec{Path: "sub/to-shared-dir", Kind: "link", Target: "../../shared"})
+		// links that stay inside this root but leave its subdirectory sub/ by way
+		// of another link: what is right for them differs between overlapping roots
+		t.Nodes = append(t.Nodes, gen.NodeSpec{Path: "sub/hop", Kind: "link", Target: "../hopdest"},
+			gen.NodeSpec{Path: "hopdest/file.txt", Kind: "file", Content: fmt.Sprintf("hop %d", i), Mode: 0644},
+			gen.NodeSpec{Path: "sub/alink", Kind: "link", Target: "hop/file.txt"},
+			gen.NodeSpec{Path: "sub/inner.txt", Kind: "file", Content: "inner", Mode: 0644},
+			gen.NodeSpec{Path: "sub/blink", Kind: "link", Target: "inner.txt"})
 		if err := c16Materialise(root, t, rules); err != nil {
 			res.Class, res.NonTrivial = "tree-not-materialisable", false
 			return res
@@ -438,9 +445,22 @@ func c16ReusedPacker(env *fw.Env, idx int) fw.Result {
 	order := r.Perm(len(roots))
 	// ... and the first root once more at the end, after its rule file was rewritten
 	order = append(order, order[0])
+	// ... and then overlapping roots: the parent of a root, the root, its
+	// subdirectory, in both directions
+	nOrig := len(roots)
+	for i := 0; i < nOrig; i++ {
+		seq := []string{filepath.Dir(roots[i]), roots[i], roots[i] + "/sub", roots[i]}
+		if r.Chance(1, 2) {
+			seq = []string{roots[i] + "/sub", roots[i], filepath.Dir(roots[i]), roots[i] + "/sub"}
+		}
+		for _, extra := range seq {
+			roots = append(roots, extra)
+			order = append(order, len(roots)-1)
+		}
+	}
 	for step, k := range order {
 		root := roots[k]
-		if step == len(roots) {
+		if step == nOrig {
 			os.WriteFile(filepath.Join(root, ".terraformignore"), []byte("*.tf\n!keep.tf\nsub/\n"), 0644)
 		}
 		var o packObs
@@ -494,7 +514,7 @@ func init() {
 		ID:    "C16",
 		Level: "exploration",
 		Rule: "for each generated tree (with one of 7 rule files) and option set, Pack runs once by the absolute clean path (baseline) and then under 27 variations: 8 spellings/working directories (trailing slash, doubled slash, dot segments, relative from parent / inside / elsewhere / sibling), 8 ways through a symlink (absolute target, relative target with the working directory elsewhere and at the link, chain of two, trailing slash, dot segments after the link, a symlinked parent directory; a decoy tree sits where relative link targets would lead from the working directory) and 7 call histories (the same path led to another tree at an earlier Pack because a symlinked parent directory has been pointed elsewhere since, another tree, a rule file beginning with a negation, the same relative spelling / '.' used earlier from another working directory for a different tree whose rule file has the same size and mtime, 50 mixed calls); decoded entry lists must be identical. " +
-			"Reuse: one Packer value (options incl. relative AllowSymlinkTarget entries) packs three different roots in PRNG order and every output must equal that of a fresh Packer with the same options. Concurrency: fresh race-instrumented worker per round, 8-16 goroutines packing different trees (default rules / negation-first rule files mixed) 3 times each behind a barrier (every other round through one shared Packer value; half of the rounds after Pack calls whose destination failed at the first byte, half way and at the final flush), outputs compared with solo runs; any race report is a violation. non-trivial = every case (each has >=1 non-baseline variation); distinct = tree x rules x options",
+			"Reuse: one Packer value (options incl. relative AllowSymlinkTarget entries) packs three different roots in PRNG order, then for each root its parent, the root and its subdirectory sub/ (overlapping roots, both directions; each tree has a link that is right inside the root and leads out of sub/ through another link), and every output must equal that of a fresh Packer with the same options. Concurrency: fresh race-instrumented worker per round, 8-16 goroutines packing different trees (default rules / negation-first rule files mixed) 3 times each behind a barrier (every other round through one shared Packer value; half of the rounds after Pack calls whose destination failed at the first byte, half way and at the final flush), outputs compared with solo runs; any race report is a violation. non-trivial = every case (each has >=1 non-baseline variation); distinct = tree x rules x options",
 		Assumptions: []string{"the baseline run is Pack of the absolute clean path in the same process", "the race detector only sees the interleavings the scheduler produced in these rounds"},
 		Phases:      []*fw.Phase{variations, reused, conc},
 	})
